@@ -1479,7 +1479,7 @@ func (s *PrintCtx) appendValue(val any) {
 		// }
 
 		// TODO remove usage to fmt.Sprintf
-		s.pcTryQuoteValue(fmt.Sprintf("{{%v}}", z))
+		s.pcQuoteValue(fmt.Sprintf("{{%v}}", z))
 	}
 }
 
